@@ -356,7 +356,10 @@ def pool_hook(it, obj, name, args, kw):
     if name != "map":
         raise Raised("Unordered", f"pool.{name}: only Executor.map keeps submission order")
     obj.maps += 1
-    return [it.call(args[0], [x], {}) for x in it.iterate(args[1])]
+    if len(args) == 2:
+        return [it.call(args[0], [x], {}) for x in it.iterate(args[1])]
+    # Executor.map(f, xs, ys, ...): f(x, y, ...) for the zipped arguments, up to the shortest
+    return [it.call(args[0], list(a), {}) for a in zip(*[iter(it.iterate(x)) for x in args[1:]])]
 
 
 def d5b(chk, prog):
